@@ -3,7 +3,8 @@ import Driver.Util
 /- Channel `c15` (generator side: harness/src/c15.rs):
    c15 ao <cmd,cmd,…>           = c15 aox plain <cmd,…>
    c15 aox <setup> <cmd,cmd,…>  -> ok <cmd>=<result>:<kinds>,…   sequence on an append-only repository (two snapshots);
-                                   setup plain | hc (hot/cold) | dmg | hcdmg (damaged: coarse `refused|ran:<kinds>`)
+                                   setup plain | hc (hot/cold) | dmg | hcdmg (damaged: coarse `refused|ran:<kinds>`) | orph | hcorph
+                                   (orphan packs = pack files in no index file)
    c15 hnd <setup> <cmd,cmd,…>  -> the same line: config changes applied to ONE open handle, the next command run on that handle
                                    (the table has a single flag: `Props/C15.handle_flag_is_table_flag`)
    c15 dry <damage> <cmd>       -> ok <cmd>=-                     a dry-run flag issues no storage operation at all
@@ -23,9 +24,14 @@ def scenOf : String → Option Scen
   | "hc" => some { hotCold := true }
   | "dmg" => some { damaged := true }
   | "hcdmg" => some { hotCold := true, damaged := true }
+  -- pack files that no index file lists next to the two snapshots: the table's expectation is the one of plain / hc
+  -- (on an append-only repository prune is refused before it looks at them)
+  | "orph" => some {}
+  | "hcorph" => some { hotCold := true }
   | _ => none
 
-def damages : List String := ["none", "index", "pack", "dmg", "hc", "hcdmg", "hcmiss", "hcmissp", "hcpack", "hcindex"]
+def damages : List String := ["none", "index", "pack", "dmg", "hc", "hcdmg", "hcmiss", "hcmissp", "hcpack", "hcindex",
+  "big", "bigindex", "hcbig", "hcbigindex"]
 
 /-- a dry-run flag on a repository that is not append-only: no operation (whatever the result). -/
 def dryOk (damage cmd : String) : Bool :=
